@@ -357,12 +357,7 @@ theorem trace_sublist (feats : List String) (c : RefCase) (ops : List ROp) : (tr
       · exact List.Sublist.cons _ (ih c')
       · exact List.Sublist.cons_cons _ (ih c')
 
-/-- e.g.: the write through the never-created handle 5 and everything after the panicking `to_dyn!` (featureless
-caller, `Rc<RefCell<_>>`) are not effective -/
-example : trace [] (RefCase.init .arcMutex) [.clone 0, .write 5 9, .write 1 3, .toDyn 0, .write 0 4] =
-    [.clone 0, .write 1 3] := by decide
-example : (run [] (RefCase.init .arcMutex) [.clone 0, .write 5 9, .write 1 3, .toDyn 0, .write 0 4]).read 0 = some 3 := by
-  decide
+-- (a concrete trace through a `to_dyn!` without an arm is in Thm/Lemmas/C17Snapshot.lean: it depends on TODAY's arm table)
 
 theorem run_cons_ok (feats : List String) (c c' : RefCase) (op : ROp) (rest : List ROp)
     (h : step feats c op = .ok c') : run feats c (op :: rest) = run feats c' rest := by
@@ -738,16 +733,8 @@ theorem to_dyn_one_definition_per_build :
 example : toDynLists .rcRefCell = true ∧ variantExists ["alloc"] .rcRefCell = true ∧
     toDynHasArmIn [] ["alloc"] .rcRefCell = true := by decide
 
-/-- the macro lists exactly `Ptr`, `RcRefCell`, `PtrRwLock`; `PtrMutex`, `ArcRwLock`, `ArcMutex` have no arm at all
-(so the property does not require them to convert — and they never do) -/
-theorem to_dyn_unlisted_variants :
-    toDynLists .ptr = true ∧ toDynLists .rcRefCell = true ∧ toDynLists .ptrRwLock = true ∧
-    toDynLists .ptrMutex = false ∧ toDynLists .arcRwLock = false ∧ toDynLists .arcMutex = false := by
-  decide
-theorem to_dyn_unlisted_never_convert (callerFeats rrtkFeats : List String) :
-    toDynHasArmIn callerFeats rrtkFeats .ptrMutex = false ∧ toDynHasArmIn callerFeats rrtkFeats .arcRwLock = false ∧
-    toDynHasArmIn callerFeats rrtkFeats .arcMutex = false := by
-  simp [toDynHasArmIn, Gen.toDynDefs, RefVariant.name, featOn]
+-- (which variants the macro lists TODAY — `Ptr`, `RcRefCell`, `PtrRwLock` — is a snapshot of the regenerated table, not a requirement of
+--  the property: listing more variants is conformant. Those facts live in Thm/Lemmas/C17Snapshot.lean, outside the obligations.)
 
 /-- every arm names a variant of the enum, and a definition only has arms for variants that exist in the builds it is
 compiled into -/
